@@ -232,6 +232,23 @@ impl Fp {
     }
 }
 
+/// Verification hook H6: unchanged wrappers of the crate-private Montgomery
+/// kernels, so that an out-of-tree checker can replay solver counterexamples
+/// against the real functions. Add-only, compiled only with the `verif-hooks`
+/// feature.
+#[cfg(feature = "verif-hooks")]
+impl Fp {
+    /// Calls the crate-private `montgomery_reduce` unchanged.
+    pub fn verif_montgomery_reduce(r: &[u64; 8]) -> Fp {
+        Fp::montgomery_reduce(r)
+    }
+
+    /// Calls the crate-private `from_mont` unchanged.
+    pub fn verif_from_mont(&self) -> [u64; 4] {
+        self.from_mont()
+    }
+}
+
 impl fmt::Debug for Fp {
     fn fmt(&self, f: &mut fmt::Formatter<'_>) -> fmt::Result {
         let tmp = self.to_repr();
